@@ -22,9 +22,45 @@ type c18Val struct {
 func genC18(g *G) {
 	rounds := itoa(g.n(20, 200))
 	perKind := g.n(8, 16) // values per kind that get the (expensive) concurrent run
+	vals := c18Pool(g)
+
+	// emit: captight for everything (cheap); concurrent for the first perKind values of a kind that parse
+	g.in("c18-captight")
+	for _, v := range vals {
+		g.gen = "c18-captight-" + v.kind
+		g.emit("!captight", v.kind, v.hex, v.aux)
+	}
+	taken := map[string]int{}
+	alt := map[string]int{}
+	for _, v := range vals {
+		if taken[v.kind] >= perKind {
+			continue
+		}
+		val, _, _ := c18Build(v.kind, unhx(v.hex), atoi(v.aux))
+		if val == nil {
+			continue // rejected inputs carry no shared value
+		}
+		taken[v.kind]++
+		g.gen = "c18-concurrent-" + v.kind
+		g.emit("!concurrent", v.kind, v.hex, v.aux, rounds)
+		// alternative constructor paths: a few values per kind
+		if alt[v.kind] < g.n(2, 10) {
+			alt[v.kind]++
+			for i, p := range c18Paths[v.kind] {
+				if i == 0 {
+					continue
+				}
+				g.gen = "c18-concurrent-" + v.kind + "-" + p.name
+				g.emit("!concurrent", v.kind+"/"+p.name, v.hex, v.aux, rounds)
+			}
+		}
+	}
+}
+
+// c18Pool: encodings of every structure kind (kind, wire bytes, auxiliary argument of the reader).
+func c18Pool(g *G) []c18Val {
 	var vals []c18Val
 	add := func(kind, hex, aux string) { vals = append(vals, c18Val{kind, hex, aux}) }
-
 	// mappings in descending key order with many pairs: anything that reorders on first use has work to do
 	for _, n := range []int{16, 9, 5} {
 		var ps [][2][]byte
@@ -83,37 +119,7 @@ func genC18(g *G) {
 	}
 	add("mapping", hx(encMapping(g.genPairs(12))), "0")
 
-	// emit: captight for everything (cheap); concurrent for the first perKind values of a kind that parse
-	g.in("c18-captight")
-	for _, v := range vals {
-		g.gen = "c18-captight-" + v.kind
-		g.emit("!captight", v.kind, v.hex, v.aux)
-	}
-	taken := map[string]int{}
-	alt := map[string]int{}
-	for _, v := range vals {
-		if taken[v.kind] >= perKind {
-			continue
-		}
-		val, _, _ := c18Build(v.kind, unhx(v.hex), atoi(v.aux))
-		if val == nil {
-			continue // rejected inputs carry no shared value
-		}
-		taken[v.kind]++
-		g.gen = "c18-concurrent-" + v.kind
-		g.emit("!concurrent", v.kind, v.hex, v.aux, rounds)
-		// alternative constructor paths: a few values per kind
-		if alt[v.kind] < g.n(2, 10) {
-			alt[v.kind]++
-			for i, p := range c18Paths[v.kind] {
-				if i == 0 {
-					continue
-				}
-				g.gen = "c18-concurrent-" + v.kind + "-" + p.name
-				g.emit("!concurrent", v.kind+"/"+p.name, v.hex, v.aux, rounds)
-			}
-		}
-	}
+	return vals
 }
 
 func init() { suites["C18"] = genC18 }
